@@ -126,6 +126,8 @@ type Conn struct {
 	// RstCutAt is len(Sent) at the last Write that failed because the peer had reset / gone away
 	// (-1 = never): a message of which only a part was written before that is cut by the environment.
 	RstCutAt int
+	wclosed  bool // CloseWrite was called
+	linger0  bool // SetLinger(0): Close aborts the connection
 }
 
 // Chunk is one logged write.
@@ -239,6 +241,9 @@ func (c *Conn) Write(p []byte) (int, error) {
 		c.noteCut()
 		return 0, &net.OpError{Op: "write", Net: "tcp", Source: c.local, Addr: c.remote, Err: net.ErrClosed}
 	}
+	if c.wclosed {
+		return 0, &net.OpError{Op: "write", Net: "tcp", Source: c.local, Addr: c.remote, Err: syscall.EPIPE}
+	}
 	c.writing = true
 	defer func() { c.writing = false }()
 	if expired() {
@@ -301,6 +306,9 @@ func (c *Conn) writeUnbounded(p []byte) (int, error) {
 		c.noteCut()
 		return 0, &net.OpError{Op: "write", Net: "tcp", Source: c.local, Addr: c.remote, Err: net.ErrClosed}
 	}
+	if c.wclosed {
+		return 0, &net.OpError{Op: "write", Net: "tcp", Source: c.local, Addr: c.remote, Err: syscall.EPIPE}
+	}
 	if c.wdl != noDeadline && vrt.Cur().Now() >= c.wdl {
 		// a write deadline that has already passed fails the write before a single octet is sent
 		return 0, &net.OpError{Op: "write", Net: "tcp", Source: c.local, Addr: c.remote, Err: os.ErrDeadlineExceeded}
@@ -359,14 +367,91 @@ func (c *Conn) Close() error {
 	c.closed = true
 	c.ClosedAt = vrt.Cur().Now()
 	c.peer.inEOF = true
+	if c.linger0 {
+		// SO_LINGER 0: unsent and unread data is dropped and the peer gets a reset
+		c.rst, c.peer.rst = true, true
+		c.in, c.peer.in = nil, nil
+	}
 	return nil
 }
 
 // CloseWrite half-closes: the peer sees EOF after the data already written.
 func (c *Conn) CloseWrite() error {
 	vrt.Wait("net.Conn.CloseWrite", "net-closewrite", nil, false, c.obj, c.peer.obj)
+	if c.closed {
+		return &net.OpError{Op: "close", Net: "tcp", Source: c.local, Addr: c.remote, Err: net.ErrClosed}
+	}
 	c.peer.inEOF = true
+	c.wclosed = true
 	return nil
+}
+
+// The rest of *net.TCPConn's method set: the net shim aliases TCPConn to Conn, so that a library which
+// asserts its net.Conn to *net.TCPConn takes, on the virtual network, the branch it takes on a real one.
+
+// CloseRead shuts down the reading side: pending and later input is discarded, Read reports EOF.
+func (c *Conn) CloseRead() error {
+	vrt.Wait("net.Conn.CloseRead", "net-closeread", nil, false, c.obj, c.peer.obj)
+	if c.closed {
+		return &net.OpError{Op: "close", Net: "tcp", Source: c.local, Addr: c.remote, Err: net.ErrClosed}
+	}
+	c.in, c.inEOF = nil, true
+	return nil
+}
+func (c *Conn) SetLinger(sec int) error                      { c.linger0 = sec == 0; return nil }
+func (c *Conn) SetKeepAlive(bool) error                      { return nil }
+func (c *Conn) SetKeepAlivePeriod(time.Duration) error       { return nil }
+func (c *Conn) SetKeepAliveConfig(net.KeepAliveConfig) error { return nil }
+func (c *Conn) SetNoDelay(bool) error                        { return nil }
+func (c *Conn) SetReadBuffer(int) error                      { return nil }
+func (c *Conn) SetWriteBuffer(int) error                     { return nil }
+func (c *Conn) MultipathTCP() (bool, error)                  { return false, nil }
+func (c *Conn) File() (*os.File, error) {
+	return nil, errors.New("vnet: a virtual connection has no file")
+}
+func (c *Conn) SyscallConn() (syscall.RawConn, error) {
+	return nil, errors.New("vnet: a virtual connection has no descriptor")
+}
+
+// ReadFrom and WriteTo are the generic copy loops (no splice/sendfile on a virtual connection).
+func (c *Conn) ReadFrom(r io.Reader) (n int64, err error) {
+	buf := make([]byte, 32*1024)
+	for {
+		k, rerr := r.Read(buf)
+		if k > 0 {
+			w, werr := c.Write(buf[:k])
+			n += int64(w)
+			if werr != nil {
+				return n, werr
+			}
+		}
+		if rerr == io.EOF {
+			return n, nil
+		}
+		if rerr != nil {
+			return n, rerr
+		}
+	}
+}
+
+func (c *Conn) WriteTo(w io.Writer) (n int64, err error) {
+	buf := make([]byte, 32*1024)
+	for {
+		k, rerr := c.Read(buf)
+		if k > 0 {
+			m, werr := w.Write(buf[:k])
+			n += int64(m)
+			if werr != nil {
+				return n, werr
+			}
+		}
+		if rerr == io.EOF {
+			return n, nil
+		}
+		if rerr != nil {
+			return n, rerr
+		}
+	}
 }
 
 // Reset aborts the connection: unread data is dropped, both directions fail.
